@@ -337,3 +337,50 @@ func OnceValue[T any](f func() T) func() T {
 		return v
 	}
 }
+
+func (m *Map) Swap(key, value any) (previous any, loaded bool) {
+	m.mu.Lock()
+	defer m.mu.Unlock()
+	previous, loaded = m.m[key]
+	if m.m == nil {
+		m.m = map[any]any{}
+	}
+	m.m[key] = value
+	return previous, loaded
+}
+
+func (m *Map) CompareAndSwap(key, old, new any) bool {
+	m.mu.Lock()
+	defer m.mu.Unlock()
+	if v, ok := m.m[key]; ok && v == old {
+		m.m[key] = new
+		return true
+	}
+	return false
+}
+
+func (m *Map) CompareAndDelete(key, old any) bool {
+	m.mu.Lock()
+	defer m.mu.Unlock()
+	if v, ok := m.m[key]; ok && v == old {
+		delete(m.m, key)
+		return true
+	}
+	return false
+}
+
+func (m *Map) Clear() {
+	m.mu.Lock()
+	defer m.mu.Unlock()
+	clear(m.m)
+}
+
+func OnceValues[T1, T2 any](f func() (T1, T2)) func() (T1, T2) {
+	var o Once
+	var v1 T1
+	var v2 T2
+	return func() (T1, T2) {
+		o.Do(func() { v1, v2 = f() })
+		return v1, v2
+	}
+}
